@@ -55,8 +55,9 @@ void verif_native_assume_failed(const char *c);
 void verif_native_assert_failed(const char *msg);
 void verif_native_post_failed(const char *fn, int clause);
 #define VERIF_INPUT(x) verif_native_load(#x, &(x), sizeof(x))
-#define VERIF_ASSUME(c) { if (!(c)) verif_native_assume_failed(#c); }
-#define VERIF_ASSERT(c, msg) { if (!(c)) verif_native_assert_failed(msg); }
+/* expressions, so that `if (c) __CPROVER_assert(..); else ..` in a harness compiles natively as it does under cbmc */
+#define VERIF_ASSUME(c) ((c) ? (void)0 : verif_native_assume_failed(#c))
+#define VERIF_ASSERT(c, msg) ((c) ? (void)0 : verif_native_assert_failed(msg))
 #define __CPROVER_assume(c) VERIF_ASSUME(c)
 #define __CPROVER_assert(c, msg) VERIF_ASSERT(c, msg)
 #endif
